@@ -13,6 +13,8 @@ import (
 	"sync/atomic"
 	"time"
 
+	"github.com/zitadel/saml/pkg/provider"
+
 	"verif/harness/core"
 	"verif/harness/env"
 	"verif/harness/sim"
@@ -64,7 +66,20 @@ func c15Round(r *core.Run, idx int, rng *rand.Rand) {
 
 	// every other round the issuer comes from the Forwarded header while all clients share one upstream Host
 	forwarded := (idx/9)%2 == 1 || idx%4 == 3
-	e, err := env.New(env.Opts{HostPath: "/saml", UseFwd: forwarded, SigAlg: spsim.AlgRSASHA256, MetaSigAlg: []string{"", spsim.AlgRSASHA256}[idx%2]})
+	// some rounds publish the metadata (= entity ID) under one fixed URL while all locations still follow the host
+	fixedEntity := idx%4 == 2
+	opts := env.Opts{HostPath: "/saml", UseFwd: forwarded, SigAlg: spsim.AlgRSASHA256, MetaSigAlg: []string{"", spsim.AlgRSASHA256}[idx%2]}
+	if fixedEntity {
+		m := provider.NewEndpointWithURL("/metadata", "https://entity.idp.example/saml/metadata")
+		opts.Metadata = &m
+	}
+	entityOf := func(host string) string {
+		if fixedEntity {
+			return "https://entity.idp.example/saml/metadata"
+		}
+		return "https://" + host + "/saml/metadata"
+	}
+	e, err := env.New(opts)
 	if err != nil {
 		panic(err)
 	}
@@ -222,7 +237,7 @@ func c15Round(r *core.Run, idx int, rng *rand.Rand) {
 							report("own_callback_failed", kind, fmt.Sprintf("client %d: completed session %s not answered with Success (status %d)", c, id, call.D.Status), call)
 						} else {
 							m := call.D.Msg
-							if m.NameID != st.user.Username || m.Issuer != "https://"+st.host+"/saml/metadata" || len(m.Audiences) != 1 || m.Audiences[0] != st.sp.EntityID || !strings.HasPrefix(call.D.RelayState, fmt.Sprintf("MK_c%dx", c)) || m.Destination != st.sp.ACS[0].Location {
+							if m.NameID != st.user.Username || m.Issuer != entityOf(st.host) || len(m.Audiences) != 1 || m.Audiences[0] != st.sp.EntityID || !strings.HasPrefix(call.D.RelayState, fmt.Sprintf("MK_c%dx", c)) || m.Destination != st.sp.ACS[0].Location {
 								report("reply_not_determined_by_own_request", kind, fmt.Sprintf("client %d: NameID %q Issuer %q Audience %v RelayState %q Destination %q", c, m.NameID, m.Issuer, m.Audiences, call.D.RelayState, m.Destination), call)
 							}
 						}
@@ -231,7 +246,7 @@ func c15Round(r *core.Run, idx int, rng *rand.Rand) {
 					l := conformantLogout(lr, st.sp)
 					l.ID = fmt.Sprintf("MK_c%dxlogout%d", c, k)
 					call := do("logout", env.Req{Method: "POST", Path: env.PathSLO, Body: spsim.FormBody("SAMLRequest", spsim.B64([]byte(l.XML(lr))), "RelayState", fmt.Sprintf("MK_c%dxlrelay%d", c, k))})
-					if call.Panic == "" && (call.D.Msg == nil || call.D.Msg.InResponseTo != l.ID || call.D.Msg.Issuer != "https://"+st.host+"/saml/metadata") {
+					if call.Panic == "" && (call.D.Msg == nil || call.D.Msg.InResponseTo != l.ID || call.D.Msg.Issuer != entityOf(st.host)) {
 						report("reply_not_determined_by_own_request", "logout", fmt.Sprintf("client %d: logout reply %+v", c, call.D.Msg), call)
 					}
 				case op < 8:
@@ -244,7 +259,7 @@ func c15Round(r *core.Run, idx int, rng *rand.Rand) {
 					}
 				case op < 9:
 					call := do("metadata", env.Req{Path: env.PathMetadata})
-					if call.Panic == "" && !strings.Contains(string(call.D.Body), `entityID="https://`+st.host+`/saml/metadata"`) {
+					if call.Panic == "" && (!strings.Contains(string(call.D.Body), `entityID="`+entityOf(st.host)+`"`) || !strings.Contains(string(call.D.Body), `Location="https://`+st.host+`/saml/SSO"`)) {
 						report("reply_not_determined_by_own_request", "metadata", fmt.Sprintf("client %d: metadata for host %s has another entityID", c, st.host), call)
 					}
 				default:
@@ -311,6 +326,54 @@ func c15Round(r *core.Run, idx int, rng *rand.Rand) {
 	}
 }
 
+// c15IDs hammers the exported ID generator from many goroutines: every value must be an xs:ID and unique.
+func c15IDs(r *core.Run, idx int, rng *rand.Rand) {
+	const wl = "id_generator"
+	const G, N = 32, 12000
+	out := make([][]string, G)
+	var wg sync.WaitGroup
+	for g := 0; g < G; g++ {
+		wg.Add(1)
+		go func(g int) {
+			defer wg.Done()
+			ids := make([]string, N)
+			for i := range ids {
+				ids[i] = provider.NewID()
+				if i%64 == 0 {
+					runtime.Gosched()
+				}
+			}
+			out[g] = ids
+		}(g)
+	}
+	wg.Wait()
+	seen := make(map[string]int, G*N)
+	dups, bad := 0, 0
+	first := ""
+	for g, ids := range out {
+		for _, id := range ids {
+			if !isNCName(id) {
+				bad++
+			}
+			if _, ok := seen[id]; ok {
+				dups++
+				if first == "" {
+					first = id
+				}
+			}
+			seen[id] = g
+		}
+	}
+	r.EvalBulk(G*N, int64(len(seen)))
+	r.Count("ids_from_generator", G*N)
+	if dups > 0 {
+		r.Violate(core.Violation{Clause: "duplicate_id", Class: "id_generator", Reason: fmt.Sprintf("%d of %d IDs drawn concurrently by %d goroutines are duplicates (e.g. %s)", dups, G*N, G, first), Workload: wl, Index: idx})
+	}
+	if bad > 0 {
+		r.Violate(core.Violation{Clause: "id_syntax", Class: "id_generator", Reason: fmt.Sprintf("%d IDs are not xs:ID values", bad), Workload: wl, Index: idx})
+	}
+}
+
 func init() {
 	register(&Prop{
 		ID: "C15", Level: "exploration", Race: true, DeathIsViolation: true,
@@ -324,7 +387,11 @@ func init() {
 			r.Require("ids_checked", 1000)
 			r.Require("race_log_files", 0)
 			r.Require("rounds_with_forwarded_issuer", 1)
-			return []core.Workload{{Name: "concurrent_rounds", N: c.Pick(4, 27), Workers: 1, Fn: c15Round}}
+			r.Require("ids_from_generator", 300000)
+			return []core.Workload{
+				{Name: "concurrent_rounds", N: c.Pick(4, 27), Workers: 1, Fn: c15Round},
+				{Name: "id_generator", N: c.Pick(1, 6), Workers: 1, Fn: c15IDs},
+			}
 		},
 	})
 }
